@@ -848,17 +848,17 @@ class Network:
                 )
             )
 
+            self._finalize_peer_connection(connection)
+
+            await self._event_bus.emit(
+                PeerInitializedEvent(connection, requested=True))
+
         except asyncio.CancelledError:
             # The attempt got cancelled (for example because the indirect
-            # connection won the race). Don't leave the half-opened connection
-            # behind in the list of peer connections
+            # connection won the race). Don't leave the connection behind in
+            # the list of peer connections
             await connection.disconnect(CloseReason.REQUESTED)
             raise
-
-        self._finalize_peer_connection(connection)
-
-        await self._event_bus.emit(
-            PeerInitializedEvent(connection, requested=True))
 
         return connection
 
